@@ -68,6 +68,10 @@ Definition elf_hash (name : bytes) : N := fold_left elf_hash_step name 0.
 Definition gnu_hash_step (h : N) (c : N) : N := wrap32 (wrap32 (wrap32 (h * 32) + h) + c).
 Definition elf_gnu_hash (name : bytes) : N := fold_left gnu_hash_step name 5381.
 
+(* fuel for a loop that runs [n] times whatever the data: more than 2^32
+   iterations count as not returning *)
+Definition count_fuel (n : N) : list N := if 4294967296 <? n then [] else repeatN 0 (n + 1).
+
 Section WithEnv.
   Variable junk : N -> N.
   Variable host : endian.      (* byte order of the machine running the library *)
@@ -306,8 +310,7 @@ Section WithEnv.
             | None => Fault NullDeref
             | Some s1 =>
                 let n := get_symbols_num el1 s1 in
-                let fuel := match s_data s1 with Some b => b | None => [] end in
-                scan_names (0 :: fuel) el1 symsec name 0 n
+                scan_names (count_fuel n) el1 symsec name 0 n
             end
         end
     end.
